@@ -64,6 +64,11 @@ def hook_factory(plan):
         if name in ('core::convert::Into::into', 'core::convert::From::from') and args:
             return args[0]
         a0 = interp.deref_all(args[0]) if args else None
+        if a0 is not None and a0[0] == 'key' and name.startswith(('core::str::', 'alloc::str::', 'alloc::string::String::', '<str as ', '<alloc::string::String as ')):
+            # a string operation on the request path: the same text (owned / borrowed copies) or some OTHER text
+            same = seg in ('to_owned', 'to_string', 'clone', 'as_str', 'as_ref', 'borrow', 'deref', 'into', 'from', 'into_boxed_str', 'into_string')
+            v = a0 if same else ('key', a0[1] + '~' + seg)
+            return ('ref', Cell(v)) if body.local_ty(t['dest']['l']).startswith('&') else v
         if a0 is not None and a0[0] in ('frame', 'hbody') and (name.startswith('rkyv::') or name.startswith('alloc::') or name.startswith('core::') or name.startswith('bytes::')
                                                                or name.startswith('hyper::')):
             if seg in ('to_vec', 'into_vec', 'as_slice', 'clone', 'into', 'from', 'as_ref', 'deref', 'to_owned', 'copy_from_slice', 'into_boxed_slice', 'borrow'):
